@@ -59,6 +59,9 @@ fn scen(_spec: RunSpec) -> ScenFut {
             c.enabled = false;
             c.max_grants = 200_000;
         });
+        // every statement planning is a scheduling point too (on the service's multi-threaded runtime another
+        // request can re-bind the table at any instruction before the planner resolves the name)
+        sim::enable_pause_site("query.before_plan");
         let now = sim::wall_ns();
         let n_chunks = sim::w_range(3, 6) as i64;
         let pw = ParquetWriter::new();
